@@ -17,6 +17,7 @@ TABLE = {
     "c01_condvalue_semantic_type_first.diff": ("contracts.c01", "lower_output_spec_expr", "op <;"),
     "c02_bundle_constant_inlined.diff": ("contracts.c20b", "_decide_materialization", None),
     "c03_hold_gate_ge.diff": ("contracts.c03", "_create_standard_memory", None),
+    "c05_multiplier_reads_both_wires.diff": ("contracts.c05", "_create_latch_multiplier", None),
     "c05_rs_hold_row_or.diff": ("contracts.c05", "_latch_placement", None),
     "c07_arith_wires_swapped.diff": ("contracts.c07", "_configure_arithmetic", None),
     "c07_row_not_mirrored.diff": ("contracts.c07", "_configure_decider_multi_condition", None),
